@@ -12,7 +12,11 @@ theorem loc_processCmd (w : W) (p : Nat) (d : Dg) : (processCmd w p d).1.loc = w
   | none => rfl
   | some rf =>
     cases dstF w d with
-    | none => simp only []; split <;> rfl
+    | none =>
+      simp only []
+      split
+      · rfl
+      · split <;> rfl
     | some lf =>
       simp only []
       split
@@ -41,6 +45,12 @@ theorem loc_step (w : W) (op : Op) : (step w op).1.loc = w.loc := by
   | entAdd p e ctr ack => simp only [step, processEntAdd]; split <;> rfl
   | drop p => rfl
   | conn p => simp only [step, connPeer]; split <;> rfl
+  | setData a fn v =>
+    simp only [step, localSet]
+    split
+    · split <;> rfl
+    · rfl
+  | reann p ctr ref ack => simp only [step, processReann]; split <;> rfl
 
 theorem loc_run (ops : List Op) : ∀ w : W, (run w ops).loc = w.loc := by
   induction ops with
@@ -54,10 +64,10 @@ theorem cfg_run (ops : List Op) : ∀ w : W, (run w ops).cfg = w.cfg := by
 
 /-- C01 over histories: after any history of datagrams, registry calls, entity notifications, disconnects and
     connects, the next datagram is answered with exactly the prescribed responses on the sender's connection -/
-theorem c01_history (w0 : W) (ops : List Op) (p : Nat) (d : Dg) (hwf : panics d = false) (hNM : nmReadOnly w0)
+theorem c01_history (w0 : W) (ops : List Op) (p : Nat) (d : Dg) (hwf : NoCrash w0 d) (hNM : nmReadOnly w0)
     (hx : w0.cfg.resultOnResult = true → ¬ resultToUnknown (run w0 ops) d) :
     (processCmd (run w0 ops) p d).2.filterMap kindOf = (expected (run w0 ops) p d).map fun r => (p, r) := by
-  apply c01_exact_partial _ p d hwf
+  apply c01_exact_partial _ p d (by intro h; rw [cfg_run] at h; exact hwf h)
   · intro lf hlf; rw [loc_run] at hlf; exact hNM lf hlf
   · rw [cfg_run]; exact hx
 
